@@ -166,6 +166,8 @@ class Deliverer:
             if not self.ex.qs.has(phys):
                 self.ex.qs.add(phys, [math.cos(t), math.sin(t)])
         self.delivered.append((attempt, p, resp))
+        if self.case.get("fmt") == "qlink_1_0":
+            resp = to_qlink_1_0(resp)          # the executor converts qlink-interface 1.0 responses itself
         self.ex._handle_epr_response(resp)
         return None
 
@@ -288,6 +290,22 @@ def execute(case, script):
         _guard(exc)
         err = ("raises:" + type(exc).__name__, f"documented call fails: {type(exc).__name__}: {exc}")
     return ctrl, conn, handles, d, err
+
+
+def to_qlink_1_0(resp):
+    """The same response as a qlink-interface 1.0 object (field by field, Bell states and bases by name)."""
+    import qlink_interface as ql
+    from netqasm.qlink_compat import LinkLayerOKTypeK
+    if isinstance(resp, LinkLayerOKTypeK):
+        return ql.ResCreateAndKeep(create_id=resp.create_id, logical_qubit_id=resp.logical_qubit_id,
+                                   directionality_flag=resp.directionality_flag, sequence_number=resp.sequence_number,
+                                   purpose_id=resp.purpose_id, remote_node_id=resp.remote_node_id, goodness=resp.goodness,
+                                   time_of_goodness=resp.goodness_time, bell_state=ql.BellState[resp.bell_state.name])
+    return ql.ResMeasureDirectly(create_id=resp.create_id, measurement_outcome=resp.measurement_outcome,
+                                 measurement_basis=ql.MeasurementBasis[resp.measurement_basis.name],
+                                 directionality_flag=resp.directionality_flag, sequence_number=resp.sequence_number,
+                                 purpose_id=resp.purpose_id, remote_node_id=resp.remote_node_id, goodness=resp.goodness,
+                                 bell_state=ql.BellState[resp.bell_state.name])
 
 
 def response(layout: str, values: List[Any]):
@@ -887,6 +905,8 @@ def result_cases(T: str, role: str, api: str, tier: str) -> List[Dict[str, Any]]
                                 c["hw"] = hw
                                 c["tag"] = True
                             cases.append(c)
+                            if shift < 2 and not loop:
+                                cases.append(dict(c, fmt="qlink_1_0"))     # the link layer answers in qlink-interface 1.0 objects
     return cases
 
 
